@@ -1,12 +1,46 @@
 (* Props/C01.v — Custody accounts hold exactly what the chain owes, per market.  Statements only.
-   PARTIAL: the per-market frame, the shape of every wager's custody movement and token conservation are
-   proved; the full custody equation (pool = Σ owed) as an invariant over histories is stated in
-   DESIGN.md 6/C01 and decided on every run by the Go monitor on the real state + correspondence. *)
+   C01_custody is the property over histories of the model: after ANY sequence of operations from a genesis
+   with empty custody accounts, the liquidity pool, the house fee collector and the bet fee collector each
+   hold exactly the sum over all markets of what the market's records say is owed (unsettled participations'
+   liquidity + realised profit, unsettled bets' amounts; unsettled participations' fees; unsettled bets' fees).
+   The per-market frame, the shape of a wager's custody movement and token conservation are separate theorems.
+   The model is tied to the code by the correspondence run; the Go monitor evaluates the same equations on the
+   real state. *)
 From Coq Require Import ZArith Bool List String.
 From Sge Require Import Lib.Dec Model.Types Model.Orderbook Model.Mint Model.Chain
-     Proofs.MarketFacts Proofs.WagerLoop Proofs.Supply Proofs.Tables.
+     Proofs.MarketFacts Proofs.WagerLoop Proofs.Supply Proofs.Tables Proofs.CustodyLocal Proofs.Custody Witness.C01w.
 Import ListNotations.
 Open Scope Z_scope.
+
+(* the custody equations hold in every state reachable from genesis; the only hypothesis on the operations is that
+   their signer arguments are user accounts (module accounts have no keys) *)
+Theorem C01_custody : forall bk supply P vault MP t0 sw sd ops,
+  bget bk POOL = 0 -> bget bk HOUSEFEE = 0 -> bget bk BETFEE = 0 -> Forall valid_op ops ->
+  let s := run (init bk supply P vault MP t0 sw sd) ops in
+  bget (c_bank s) POOL = tot owed_pool (c_ms s) /\
+  bget (c_bank s) HOUSEFEE = tot owed_hfee (c_ms s) /\
+  bget (c_bank s) BETFEE = tot owed_bfee (c_ms s).
+Proof. exact custody_over_histories. Qed.
+Print Assumptions C01_custody.
+
+(* the invariant that carries it (also: unique participation indexes, active books hold no settled participation,
+   realised profit only after a declared result, resolved-unsettled queue entries are distinct resolved markets) *)
+Theorem C01_invariant_step : forall s o, inv s -> valid_op o -> inv (fst (step s o)).
+Proof. exact step_inv. Qed.
+Print Assumptions C01_invariant_step.
+
+(* non-vacuity: a generated history with deposits, wagers, resolutions and settlements meets the hypotheses, and the
+   pool balance it ends with is not trivially zero *)
+Example C01_custody_witness :
+  Forall valid_op c01w_ops /\ cust (run c01w_init c01w_ops) /\
+  (0 <? bget (c_bank (run c01w_init c01w_ops)) POOL) = true /\
+  (2 <=? zlen (c_ms (run c01w_init c01w_ops))) = true /\
+  existsb (fun e => existsb (fun b => b_status b =? BS_SETTLED) (ms_bets (snd e))) (c_ms (run c01w_init c01w_ops)) = true.
+Proof.
+  assert (Hv : Forall valid_op c01w_ops) by (apply valid_ops_ok; vm_compute; reflexivity).
+  split; [exact Hv|]. split; [apply custody_over_histories; try reflexivity; exact Hv|].
+  repeat split; vm_compute; reflexivity.
+Qed.
 
 (* an action on one market never changes anything recorded for another market *)
 Theorem C01_frame : forall s o m',
